@@ -95,12 +95,12 @@ def compare(case, run):
     return ideal, (not asb)
 
 
-def run_family(ck, cfgs, timeout=1800, allvariants=False, limit_only=False):
+def run_family(ck, cfgs, timeout=1800, allvariants=False, limit_only=False, only=None):
     total = 0
     for c in cfgs:
         r = vf.require_ok(vf.tlc("LayerOverlay", c, timeout=timeout), c)
         ck.add_tlc(c, r, open(os.path.join(vf.SPEC, "cfg", c)).read().split("SPECIFICATION")[0].strip())
-        cases = r.cases
+        cases = [x for x in r.cases if only(x)] if only else r.cases
         if not cases:
             raise vf.NotAVerdict("cfg %s emitted no case" % c)
         # big families are replayed in chunks (bounded memory, bounded wall time per harness process)
